@@ -181,6 +181,7 @@ struct ShardResult {
     rep: Rep,
     cases_done: u64,
     crashed_cases: Vec<(u64, String)>,
+    hangs: Vec<(u64, String)>,
     inconclusive: Vec<String>,
 }
 
@@ -215,6 +216,7 @@ fn run_shard(check_id: &str, tier: &str, seed: u64, shard: u64, nshards: u64, sc
         rep: Rep::default(),
         cases_done: 0,
         crashed_cases: Vec::new(),
+        hangs: Vec::new(),
         inconclusive: Vec::new(),
     };
     let mut from = 0u64;
@@ -244,10 +246,25 @@ fn run_shard(check_id: &str, tier: &str, seed: u64, shard: u64, nshards: u64, sc
             .stderr(Stdio::null())
             .spawn()
             .expect("spawn child");
-        let status = wait_with_timeout(&mut child, Duration::from_secs(hard_timeout.saturating_sub(t0.elapsed().as_secs()).max(30)));
+        let stall = Duration::from_secs(if tier == "thorough" { 600 } else { 240 });
+        let (status, hang) = wait_watch(
+            &mut child,
+            Duration::from_secs(hard_timeout.saturating_sub(t0.elapsed().as_secs()).max(30)),
+            Some(&out),
+            stall,
+        );
         let (rep, cases, started, done) = parse_out(&out);
         result.rep.merge(rep);
         result.cases_done += cases;
+        if let Some(h) = hang {
+            let ci = started.unwrap_or(u64::MAX);
+            result.hangs.push((ci, h));
+            if started.is_none() || attempt > 6 {
+                break;
+            }
+            from = ci + 1;
+            continue;
+        }
         match status {
             Some(st) if st.success() && done => break,
             Some(st) => {
@@ -310,27 +327,89 @@ fn run_shard(check_id: &str, tier: &str, seed: u64, shard: u64, nshards: u64, sc
 }
 
 fn wait_with_timeout(child: &mut std::process::Child, timeout: Duration) -> Option<std::process::ExitStatus> {
+    wait_watch(child, timeout, None, Duration::from_secs(u64::MAX / 4)).0
+}
+
+/// Wait for the child. Besides the overall timeout, watch the progress file: if it has not been
+/// written for `stall` the child is considered hung in its current case; two gdb stack samples
+/// 5 s apart are taken before it is killed. Returns (status, hang report).
+fn wait_watch(
+    child: &mut std::process::Child,
+    timeout: Duration,
+    progress: Option<&Path>,
+    stall: Duration,
+) -> (Option<std::process::ExitStatus>, Option<String>) {
     let t0 = Instant::now();
     loop {
         match child.try_wait() {
-            Ok(Some(st)) => return Some(st),
+            Ok(Some(st)) => return (Some(st), None),
             Ok(None) => {
                 if t0.elapsed() > timeout {
                     let _ = child.kill();
                     let _ = child.wait();
-                    return None;
+                    return (None, None);
+                }
+                if let Some(p) = progress {
+                    let age = std::fs::metadata(p)
+                        .and_then(|m| m.modified())
+                        .ok()
+                        .and_then(|m| m.elapsed().ok())
+                        .unwrap_or(Duration::ZERO);
+                    if age > stall {
+                        let a = gdb_sample(child.id());
+                        std::thread::sleep(Duration::from_secs(5));
+                        let b = gdb_sample(child.id());
+                        let same = !a.is_empty() && a == b;
+                        let report = format!(
+                            "no progress for {}s; blocked/spinning NOMT frames {}: {}",
+                            age.as_secs(),
+                            if same { "identical in two samples 5s apart" } else { "DIFFER between two samples" },
+                            b.join(" | ")
+                        );
+                        let _ = child.kill();
+                        let _ = child.wait();
+                        return (None, Some(format!("{}{}", if same { "CONFIRMED-HANG " } else { "STALL " }, report)));
+                    }
                 }
                 std::thread::sleep(Duration::from_millis(50));
             }
-            Err(_) => return None,
+            Err(_) => return (None, None),
         }
     }
+}
+
+/// Innermost `nomt::` frame of every thread that has one, sorted.
+fn gdb_sample(pid: u32) -> Vec<String> {
+    let out = Command::new("timeout")
+        .args(["60", "gdb", "-p", &pid.to_string(), "-batch", "-ex", "thread apply all bt 14"])
+        .stderr(Stdio::null())
+        .output();
+    let Ok(out) = out else { return Vec::new() };
+    let text = String::from_utf8_lossy(&out.stdout);
+    let mut res = Vec::new();
+    let mut cur_thread = String::new();
+    let mut got = false;
+    for line in text.lines() {
+        if line.starts_with("Thread ") {
+            cur_thread = line.split('"').nth(1).unwrap_or("?").to_string();
+            got = false;
+        } else if !got && line.trim_start().starts_with('#') {
+            if let Some(pos) = line.find("nomt::") {
+                let f: String = line[pos..].chars().take_while(|c| !c.is_whitespace() && *c != '(' && *c != '<').collect();
+                res.push(format!("{cur_thread}:{f}"));
+                got = true;
+            }
+        }
+    }
+    res.sort();
+    res
 }
 
 #[derive(Clone)]
 struct Known {
     property: String,
     sig: String,
+    sig_prefix: String,
     status: String,
     what: String,
 }
@@ -346,6 +425,7 @@ fn load_known() -> Vec<Known> {
                 .map(|f| Known {
                     property: f["property"].as_str().unwrap_or("").into(),
                     sig: f["sig"].as_str().unwrap_or("").into(),
+                    sig_prefix: f["sig_prefix"].as_str().unwrap_or("").into(),
                     status: f["status"].as_str().unwrap_or("").into(),
                     what: f["what"].as_str().unwrap_or("").into(),
                 })
@@ -387,12 +467,23 @@ pub fn cmd_check(args: &[String]) -> ExitCode {
     let mut cases_done = 0;
     let mut inconclusive: Vec<String> = Vec::new();
     let mut crashed: Vec<(u64, String)> = Vec::new();
+    let mut hangs: Vec<(u64, String)> = Vec::new();
     for h in handles {
         let r = h.join().unwrap();
         rep.merge(r.rep);
         cases_done += r.cases_done;
         inconclusive.extend(r.inconclusive);
         crashed.extend(r.crashed_cases);
+        hangs.extend(r.hangs);
+    }
+    // A confirmed hang is a verdict only for the properties that promise bounded progress
+    // (C14: never a hang; C15: no interleaving deadlocks); elsewhere it is inconclusive.
+    for (ci, h) in &hangs {
+        if (id == "C14" || id == "C15") && h.starts_with("CONFIRMED-HANG") {
+            crashed.push((*ci, h.clone()));
+        } else {
+            inconclusive.push(format!("case {ci}: {h}"));
+        }
     }
     inconclusive.extend(rep.inconclusive.iter().cloned());
     let _ = std::fs::remove_dir_all(&scratch);
@@ -403,7 +494,7 @@ pub fn cmd_check(args: &[String]) -> ExitCode {
     for (ci, what) in &crashed {
         mine.push(Finding {
             prop: id.clone(),
-            sig: "process-died".into(),
+            sig: if what.starts_with("CONFIRMED-HANG") { "confirmed-hang".into() } else { "process-died".into() },
             detail: what.clone(),
             case_seed: case_seeds(&check, tier, seed, *ci)[0].0,
             op_index: 0,
@@ -417,9 +508,14 @@ pub fn cmd_check(args: &[String]) -> ExitCode {
     let mut violations: Vec<&Finding> = Vec::new();
     let mut known_hits: BTreeMap<String, (Known, usize)> = BTreeMap::new();
     for f in &mine {
-        match known.iter().find(|k| k.status == "open" && k.property == f.prop && k.sig == f.sig) {
+        match known.iter().find(|k| {
+            k.status == "open"
+                && k.property == f.prop
+                && ((!k.sig.is_empty() && k.sig == f.sig) || (!k.sig_prefix.is_empty() && f.sig.starts_with(&k.sig_prefix)))
+        }) {
             Some(k) => {
-                known_hits.entry(k.sig.clone()).or_insert((k.clone(), 0)).1 += 1;
+                let key = format!("{}{}", k.sig, k.sig_prefix);
+                known_hits.entry(key).or_insert((k.clone(), 0)).1 += 1;
             }
             None => violations.push(f),
         }
@@ -450,7 +546,7 @@ pub fn cmd_check(args: &[String]) -> ExitCode {
         exit = 1;
     }
     for (_, (k, n)) in &known_hits {
-        println!("KNOWN-FINDING: property={} {} [sig={} seen {}x]", k.property, k.what, k.sig, n);
+        println!("KNOWN-FINDING: property={} {} [sig={}{} seen {}x]", k.property, k.what, k.sig, k.sig_prefix, n);
     }
     if std::env::var("NV_SHOW_ALL").is_ok() {
         let mut seen = std::collections::BTreeSet::new();
